@@ -42,9 +42,14 @@ class StmtMixin(ContractMixin):
             return True
         if z3.is_false(c2):
             return False
+        nc = z3.simplify(z3.Not(c2))
+        for p_ in st.pc:  # syntactic hits first (no solver call)
+            if p_.eq(c2):
+                return True
+            if p_.eq(nc):
+                return False
         if self.implied(st, c2):
             return True
-        nc = z3.simplify(z3.Not(c2))
         if self.implied(st, nc):
             return False
         ns = st.ghost.get("__nosplit__", ())
@@ -729,6 +734,8 @@ class StmtMixin(ContractMixin):
                 cref = ref
                 if cref.root not in written:
                     continue
+                if isinstance(g, tuple):
+                    g = t_and(*g)
                 if idx is None:
                     for ef in written[cref.root]:
                         if ef.kind == "set" and self.same_path(ef.path, cref.path) and not ef.binders:
